@@ -28,6 +28,8 @@ import weave  # noqa: E402
 ENV = dict(os.environ, CARGO_NET_OFFLINE="true", CARGO_TERM_COLOR="never", RUSTFLAGS="--cap-lints=warn")
 KANI_FLAGS = ["-Z", "function-contracts", "-Z", "stubbing", "-Z", "unstable-options", "--no-assert-contracts"]
 DEFAULT_TIMEOUT = {"quick": 600, "thorough": 3600}
+if os.environ.get("VERIF_HARNESS_TIMEOUT"):
+    DEFAULT_TIMEOUT = {k: int(os.environ["VERIF_HARNESS_TIMEOUT"]) for k in DEFAULT_TIMEOUT}
 
 TRUSTED_BASE = [
     "rustc MIR generation and Kani 0.68 MIR->goto translation (incl. its models of core intrinsics)",
@@ -171,6 +173,7 @@ def digest(data, text):
             "failed": [{"description": c.get("description"), "function": c.get("function"),
                         "location": "{file}:{line}".format(**c.get("location", {"file": "?", "line": "?"}))} for c in failed],
             "undetermined": len(undet),
+            "covers": [{"description": c.get("description"), "status": c.get("status")} for c in covers],
             "covers_total": len(covers),
             "covers_satisfied": sum(1 for c in covers if c.get("status") == "Satisfied"),
             "solver_s": stats.get(n, {}).get("runtime_solver_s"),
@@ -337,7 +340,7 @@ def main():
                     us, note = loop_labels(scratch, crate + "-s", h)
                     if us is None:
                         return (h, None, f"[runner] {h.name}: {note}", 0, 2, "", f"{h.name}: {note}")
-                    tmo = h.timeout or DEFAULT_TIMEOUT[tier]
+                    tmo = min(h.timeout or DEFAULT_TIMEOUT[tier], int(os.environ.get("VERIF_HARNESS_TIMEOUT", "100000")))
                     data, text, dt, rc, cmd = run_group(scratch, crate, [h], (h.cbmc + " " if h.cbmc else "") + "--unwindset " + us, 1, tmo,
                                                         f"{crate}-{h.name}", tdir_tag=crate + "-s")
                     return (h, data, text, dt, rc, cmd, None)
@@ -347,7 +350,7 @@ def main():
 
         def run_normal(item):
             gi, ((crate, cbmc), ghs) = item
-            tmo = max([h.timeout for h in ghs] + [0]) or DEFAULT_TIMEOUT[tier]
+            tmo = min(max([h.timeout for h in ghs] + [0]) or DEFAULT_TIMEOUT[tier], int(os.environ.get("VERIF_HARNESS_TIMEOUT", "100000")))
             data, text, dt, rc, cmd = run_group(scratch, crate, ghs, cbmc, per_group_jobs, tmo, f"{crate}-{gi}", tdir_tag=f"{crate}-{gi}")
             return ("normal", (gi, crate, ghs, data, text, dt, rc, cmd))
 
@@ -427,7 +430,30 @@ def main():
             real_fail = [f for f in r["failed"] if not is_unwind(f)]
             unwind_fail = [f for f in r["failed"] if is_unwind(f)]
             row["failed_checks"] = r["failed"][:10]
-            if h.expect_fail:
+            if h.panic:
+                # the call must panic with the given message for EVERY input of the harness: the cover placed
+                # after the call ("must-not-reach") has to be unsatisfiable and the panic check has to fail
+                must_not = [c for c in r["covers"] if "must-not-reach" in (c["description"] or "")]
+                others = [c for c in r["covers"] if "must-not-reach" not in (c["description"] or "")]
+                def is_expected(f):
+                    return any(h.panic in (f.get(k) or "") for k in ("description", "function", "location"))
+                expected_f = [f for f in real_fail if is_expected(f)]
+                other_f = [f for f in real_fail if not is_expected(f)]
+                row["covers_total"] = len(others)
+                row["covers_satisfied"] = sum(1 for c in others if c["status"] == "Satisfied")
+                if any(c["status"] == "Satisfied" for c in must_not) or other_f:
+                    row["outcome"] = "refuted"
+                    r2 = dict(r)
+                    r2["failed"] = other_f + [{"description": "execution continued after a call that must panic (cover 'must-not-reach' satisfied)", "function": h.name, "location": h.file}
+                                              for c in must_not if c["status"] == "Satisfied"]
+                    violations.append((h, r2))
+                elif expected_f and must_not and all(c["status"] == "Satisfied" for c in others) and others:
+                    row["outcome"] = "discharged"
+                    row["checks_success"] = r["checks_success"] + len(expected_f)
+                else:
+                    row["outcome"] = "undecided"
+                    undecided.append(f"{h.name}: expected panic '{h.panic}' not established ({r['status']})")
+            elif h.expect_fail:
                 if real_fail:
                     if h.kind == "canary":
                         row["outcome"] = "canary-failed-as-required"
